@@ -431,6 +431,18 @@ func checkOps(c opsCase) ev.Outcome {
 	if g, w := B.Contains(A), ivContainsAll(ib, ia); g != w {
 		return fail("contains-mismatch", "B.Contains(A) = %v want %v; A=%s B=%s", g, w, show(na), show(nb))
 	}
+	// Contains tests each CellID of its argument against the (normalized) receiver and
+	// Intersects each CellID of its receiver against the (normalized) argument: the
+	// other operand may be any multiset of cells (duplicates, nested cells, unsorted).
+	if g, w := A.Contains(toCU(c.B)), ivContainsAll(ia, ib); g != w {
+		return fail("contains-raw-mismatch", "A.Contains(raw B) = %v want %v; A=%s raw B=%s", g, w, show(na), show(c.B))
+	}
+	if g, w := B.Contains(toCU(c.A)), ivContainsAll(ib, ia); g != w {
+		return fail("contains-raw-mismatch", "B.Contains(raw A) = %v want %v; B=%s raw A=%s", g, w, show(nb), show(c.A))
+	}
+	if g, w := func() bool { r := toCU(c.A); return r.Intersects(B) }(), len(ii) > 0; g != w {
+		return fail("intersects-raw-mismatch", "(raw A).Intersects(B) = %v want %v; raw A=%s B=%s", g, w, show(c.A), show(nb))
+	}
 	if g, w := A.Intersects(B), len(ii) > 0; g != w {
 		return fail("intersects-mismatch", "A.Intersects(B) = %v want %v; A=%s B=%s", g, w, show(na), show(nb))
 	}
@@ -786,12 +798,21 @@ func genFind(t *rapid.T) findCase {
 	if rapid.IntRange(0, 5).Draw(t, "many") == 0 {
 		n = rapid.IntRange(7, 12).Draw(t, "nunions2")
 	}
+	small := false
+	if rapid.IntRange(0, 11).Draw(t, "verymany") == 0 {
+		// two-digit union indices (up to 30 unions of a few cells each)
+		n = rapid.IntRange(13, 30).Draw(t, "nunions3")
+		small = true
+	}
 	var c findCase
 	var pool []uint64
 	for i := 0; i < n; i++ {
 		sz := 6
 		if rapid.IntRange(0, 3).Draw(t, "big") == 0 {
 			sz = 25
+		}
+		if small {
+			sz = 3
 		}
 		var u []uint64
 		if i > 0 && rapid.IntRange(0, 5).Draw(t, "copy") == 0 {
@@ -812,7 +833,7 @@ func genFind(t *rapid.T) findCase {
 
 func checkFind(c findCase) ev.Outcome {
 	o := ev.Outcome{}
-	if len(c.Unions) > 16 || !allValid(c.Unions...) {
+	if len(c.Unions) > 32 || !allValid(c.Unions...) {
 		o.Skip = true
 		return o
 	}
